@@ -6,7 +6,7 @@ tier=${1:-quick}
 for p in $(python3 -c "import json; print(' '.join(c['property_id'] for c in json.load(open('MANIFEST.json'))['checks']))"); do
   s=$(date +%s)
   out=$(./check $p --tier $tier 2>&1 | grep -E "VIOLATION|KNOWN-FINDING")
-  rc=${PIPESTATUS[0]}
+  rc=$?
   e=$(date +%s)
   echo "$p tier=$tier wall=$((e-s))s $(echo "$out" | grep -c VIOLATION) violations $(echo "$out" | grep -c KNOWN) known"
   echo "$out" | grep VIOLATION
